@@ -79,7 +79,10 @@ def gen_cases(seed: int, max_params: int, per_case: int, budget: int) -> List[Di
                         if p["dep"] and not any(c["p"] == i for c in c2) and rng.random() < 0.3:
                             c2.append({"p": i, "how": "kw", "vc": rng.choice(["native", "conv", "none"])})
                     cases.append({"sig": s2, "call": c2, "parse": rng.random() < 0.8, "late": rng.random() < 0.25,
-                                  "fmt": rng.choice(["proxy_json", "proxy_json", "proxy_pickle", "json"]), "seed": len(cases)})
+                                  "fmt": rng.choice(["proxy_json", "proxy_json", "proxy_pickle", "json"]), "seed": len(cases),
+                                  "shadow": len(cases) % 4 == 3,
+                                  # every fifth case: the worker is built by the command line route (flag parsing and wiring)
+                                  "via": "cli" if len(cases) % 5 == 2 else "direct", "noprop": (len(cases) // 5) % 2 == 1})
     if len(cases) > budget:
         # keep every (n<=2) case, sample the rest deterministically
         small = [c for c in cases if len(c["sig"]) <= 2]
